@@ -1,6 +1,9 @@
 package astvalidation
 
 import (
+	"bytes"
+	"fmt"
+
 	"github.com/wundergraph/graphql-go-tools/v2/pkg/ast"
 	"github.com/wundergraph/graphql-go-tools/v2/pkg/astvisitor"
 	"github.com/wundergraph/graphql-go-tools/v2/pkg/operationreport"
@@ -29,6 +32,10 @@ func (s *subscriptionSingleRootFieldVisitor) EnterDocument(operation, definition
 			} else if selections == 1 {
 				ref := operation.SelectionSets[operation.OperationDefinitions[i].SelectionSet].SelectionRefs[0]
 				if operation.Selections[ref].Kind == ast.SelectionKindField {
+					// the single root field must not be an introspection field (spec 5.2.3.1)
+					if fieldName := operation.FieldNameBytes(operation.Selections[ref].Ref); bytes.HasPrefix(fieldName, []byte("__")) {
+						s.StopWithExternalErr(operationreport.ExternalError{Message: fmt.Sprintf("subscription root field must not be the introspection field: %s", fieldName)})
+					}
 					return
 				}
 			}
